@@ -28,12 +28,16 @@ def other_recipe():
 
 
 def op_strategy(counts=False):
+    flt = st.builds(lambda a, m, inv, ip, h: {"op": "filter", "axis": a,
+                                              "mask": m, "invert": inv,
+                                              "inplace": ip, "how": h},
+                    AX, MASK, st.booleans(), st.booleans(),
+                    st.sampled_from(["ids", "pred", "pred_value",
+                                     "pred_value"]))
+    # (filter is the operation with the most paths: drawn three times as
+    # often as the others)
     s = [
-        st.builds(lambda a, m, inv, ip, h: {"op": "filter", "axis": a,
-                                            "mask": m, "invert": inv,
-                                            "inplace": ip, "how": h},
-                  AX, MASK, st.booleans(), st.booleans(),
-                  st.sampled_from(["ids", "pred", "pred_value"])),
+        flt, flt, flt,
         st.builds(lambda a, ip: {"op": "drop_all", "axis": a, "inplace": ip},
                   AX, st.booleans()),
         st.builds(lambda a, ip: {"op": "remove_empty", "axis": a,
